@@ -9,7 +9,7 @@
    step f s is its closed form on skeletons; guard f s excludes the (request, state) pairs on
    which the CODE fails (one conjunct per known finding, see Refuted.v). *)
 From Coq Require Import List Bool Arith.
-From PV Require Import Base.PyData C08.Model C08.ProofsGraph C08.ProofsStep C08.ProofsStep2 C08.ProofsDomain C08.Proofs C08.ProofsRefine C08.ProofsDecimal C08.ProofsRefine2 C08.ProofsRefine3 C08.ProofsRefine4 C08.ProofsRefine5 C08.ProofsRefine6 C08.ProofsRefineAll.
+From PV Require Import Base.PyData C08.Model C08.ProofsGraph C08.ProofsStep C08.ProofsStep2 C08.ProofsDomain C08.Proofs C08.ProofsRefine C08.ProofsDecimal C08.ProofsRefine2 C08.ProofsRefine3 C08.ProofsRefine4 C08.ProofsRefine5 C08.ProofsRefine6 C08.ProofsRefine14 C08.ProofsRefineAll.
 
 (* The detectors are exact on every skeleton graph: for ANY number of transit and peripheral
    compartments, any absorption/elimination/lag combination (no validity hypothesis needed), each
@@ -118,13 +118,35 @@ Qed.
      was relabelled) and BEHIND a chain (last transit connected to central, depot removed:
      depot_removed_spec; then the same / addition / removal loops run on that system, which is
      build (nodepot s) with one edge moved — the loop lemmas are generalised to it: add_tail,
-     remove_transits_spec_g, detectors through has_edge_removed).  Left out: creating a chain while
-     a lag time is set and the depot stays (the recorded anomaly, outside the guard).
+     remove_transits_spec_g, detectors through has_edge_removed).  Round 4: creating a chain while
+     a lag time is set and the depot stays (outside the guard; finding C08-TRANSIT-STALE-LAG) is
+     refined too — the closed form says SAnom and the setter's result is the build of NO skeleton
+     (refines_transits_create_lag), so refines_proved (Transits n keep) s is just `valid s`.
    Not covered here (setter_refines_partial remains their link): the absorption case above,
    set_peripheral_compartments adding two or more. *)
 Theorem setter_refines :
   forall (f : req) (s : sk), refines_proved f s = true -> refines f s = true.
 Proof. exact setter_refines_lemma. Qed.
+
+(* set_transit_compartments(n, keep_depot), graph part, agrees with the closed form on EVERY valid
+   skeleton: every n, both keep_depot values, every transit / peripheral count, every flag — no
+   guard, no bound, no evaluation.  (valid only excludes the single transit without depot, which
+   find_transit_compartments reads as the depot.) *)
+Theorem transit_setter_refines_every_valid_state :
+  forall (n : nat) (keep : bool) (s : sk), valid s = true -> refines (Transits n keep) s = true.
+Proof. exact transits_refines. Qed.
+
+(* the stale lag time (open finding C08-TRANSIT-STALE-LAG) for every count: a chain of n transits
+   created in front of a dosing compartment that has a lag time (depot kept, or none) — the setter
+   succeeds, the lag time stays on the old dosing compartment, which has no dose any more, and the
+   resulting system is the build of no skeleton at all *)
+Theorem stale_lag_result_is_no_skeleton :
+  forall (s : sk) (n : nat) (keep : bool),
+    s_transits s = 0 -> s_lag s = true -> (keep = true \/ s_depot s = false) ->
+    1 <= n -> (n <> 1 \/ s_abs s <> INST) ->
+    step (Transits n keep) s = SAnom
+    /\ exists g', setter_graph (Transits n keep) (build s) = Ok g' /\ recognize g' = None.
+Proof. exact stale_lag_anomaly. Qed.
 
 (* the (len(name), name) order of find_peripheral_compartments is the numbering order, for all k *)
 Theorem peripheral_order_is_numeric :
